@@ -19,9 +19,11 @@
  *                               gw_dechunk->b length seen after any read (maxh) / while it held no LF (maxp)
  *                               -> rc=<0|-1> n=<reads ok> te=<n> h=<len> done=<0|1> out=<n> maxh=<n> maxp=<n>
  *  h1d <ms_kB> <maxfield> <prefix> <unit> <count> <suffix>
- *                               h1_chunked() after every read appended to the read queue; maxrest = largest number
- *                               of unconsumed bytes left in the read queue after any call
- *                               -> err <status> n=<reads> maxrest=<n> | ok te=<n> in=<n> rest=<n> len=<n> n=<reads> maxrest=<n>
+ *  h1s <ms_kB> <maxfield> <seg> [<seg> ...]
+ *                               h1_chunked() after every read appended to the read queue, until the body is
+ *                               complete; maxrest = largest number of unconsumed bytes left in the read queue
+ *                               after any call that did not complete the body
+ *                               -> err <status> n=<calls> maxrest=<n> | ok te=<n> in=<n> rest=<n> len=<n> ka=<0|1> n=<calls> maxrest=<n>
  *  hoff <hoff0> <hex>           http_header_parse_hoff() on a heap hoff[8192] (sentinel filled)
  *                                                                     -> <hlen> <hoff0> <maxidx> <fnv32 of hoff[0..maxidx]> <tail clean|dirty>
  *  rng <len> <hex>              http_range_parse() (text after "bytes=") on an exact-size heap ranges[RMAX*2]
@@ -239,7 +241,8 @@ int main(void) {
             free(dc.b.ptr);
             r->gw_dechunk = NULL;
         }
-        else if (0 == strcmp(op, "h1d") && ltv_ntok == 7) {
+        else if ((0 == strcmp(op, "h1d") && ltv_ntok == 7) || (0 == strcmp(op, "h1s") && ltv_ntok >= 4)) {
+            const int drip = (op[2] == 'd');
             r->conf.max_request_size = (unsigned int)tok_u64(ltv_tok[1]);
             r->conf.max_request_field_size = (unsigned int)tok_u64(ltv_tok[2]);
             r->x.h1.te_chunked = 0;
@@ -252,27 +255,35 @@ int main(void) {
             r->read_queue.bytes_in = r->read_queue.bytes_out = 0;
             r->reqbody_queue.bytes_in = r->reqbody_queue.bytes_out = 0;
             struct ltv_reads rd; memset(&rd, 0, sizeof(rd));
-            rd.p[0] = ltv_unhex(ltv_tok[3], &rd.n[0]);
-            rd.p[1] = ltv_unhex(ltv_tok[4], &rd.n[1]);
-            rd.count = strtoul(ltv_tok[5], NULL, 10);
-            rd.p[2] = ltv_unhex(ltv_tok[6], &rd.n[2]);
-            const size_t nreads = reads_total(&rd);
+            size_t nreads;
+            if (drip) {
+                rd.p[0] = ltv_unhex(ltv_tok[3], &rd.n[0]);
+                rd.p[1] = ltv_unhex(ltv_tok[4], &rd.n[1]);
+                rd.count = strtoul(ltv_tok[5], NULL, 10);
+                rd.p[2] = ltv_unhex(ltv_tok[6], &rd.n[2]);
+                nreads = reads_total(&rd);
+            }
+            else nreads = (size_t)(ltv_ntok - 3);
             long long maxrest = 0; int err = 0; size_t k = 0;
-            for (; k < nreads && r->reqbody_length < 0; ++k) {
-                size_t n; const unsigned char *src = reads_get(&rd, k, &n);
-                chunkqueue_append_mem(&r->read_queue, (const char *)src, n);
+            for (; k < nreads && r->reqbody_length < 0; ) {
+                size_t n; const unsigned char *src; unsigned char *tmp = NULL;
+                if (drip) src = reads_get(&rd, k, &n);
+                else { tmp = ltv_unhex(ltv_tok[3 + k], &n); src = tmp; }
+                ++k;
+                if (n) chunkqueue_append_mem(&r->read_queue, (const char *)src, n);
+                free(tmp);
                 chunkqueue_remove_finished_chunks(&r->read_queue);
                 handler_t hrc = h1_chunked(r, &r->read_queue, &r->reqbody_queue);
-                if (hrc != HANDLER_GO_ON) { err = r->http_status ? r->http_status : 599; ++k; break; }
+                if (hrc != HANDLER_GO_ON) { err = r->http_status ? r->http_status : 599; break; }
                 chunkqueue_remove_finished_chunks(&r->read_queue);
                 if (r->reqbody_length < 0 && chunkqueue_length(&r->read_queue) > maxrest)
                     maxrest = chunkqueue_length(&r->read_queue);
             }
             if (err) printf("err %d n=%zu maxrest=%lld\n", err, k, maxrest);
-            else printf("ok te=%lld in=%lld rest=%lld len=%lld n=%zu maxrest=%lld\n", (long long)r->x.h1.te_chunked,
+            else printf("ok te=%lld in=%lld rest=%lld len=%lld ka=%d n=%zu maxrest=%lld\n", (long long)r->x.h1.te_chunked,
                         (long long)r->reqbody_queue.bytes_in, (long long)chunkqueue_length(&r->read_queue),
-                        (long long)r->reqbody_length, k, maxrest);
-            free(rd.p[0]); free(rd.p[1]); free(rd.p[2]);
+                        (long long)r->reqbody_length, r->keep_alive ? 1 : 0, k, maxrest);
+            if (drip) { free(rd.p[0]); free(rd.p[1]); free(rd.p[2]); }
         }
         else if (0 == strcmp(op, "hoff") && ltv_ntok == 3) {
             size_t n; unsigned char *t = ltv_unhex(ltv_tok[2], &n);
